@@ -33,7 +33,7 @@ instance : Num FB where
   pow a b :=
     let v := Float.pow a.v b.v
     let da := (b.v * Float.pow a.v (b.v - 1.0)).abs * a.e
-    let db := if b.e == 0.0 then 0.0 else (v * Float.log a.v).abs * b.e
+    let db := if b.e == 0.0 then 0.0 else (v * Float.log a.v.abs).abs * b.e
     FB.mk' v (da + db)
   neg a := ⟨-a.v, a.e⟩
   sqrt := FB.lift Float.sqrt (fun x => 0.5 / Float.sqrt x)
